@@ -122,6 +122,19 @@ CHECKS.update({
         design="8 C12"),
 })
 
+CHECKS.update({
+    "C08": dict(
+        text="Contract proof per ORM backend (Django Q, SQLAlchemy ORM, SQLAlchemy Core) x (node kind | built-in function/arity) x path of "
+             "the real handler: every occurrence of a filter value (.val of a literal node, of a child, of a call argument, or anything "
+             "computed from it) in the returned expression term lies inside a binder argument (Value / literal / GEOSGeometry) [rel.out]; "
+             "the term's skeleton is the same on all paths that differ only in conditions on values [rel.path, 2-safety].",
+        note="The step from 'inside a binder' to 'bound parameter in compiled SQL' is an assumed contract of Django / SQLAlchemy, exercised "
+             "natively by a bounded family (33 templates x 3 assignments x 3 backends; labelled bounded, not counted). Boolean literals are "
+             "outside the quantifier. Django / SQLAlchemy-ORM visit_CollectionLambda not under contract.",
+        technique="contracts on the real visitors (pyvc) with external calls as uninterpreted constructors; 2-safety by path clustering",
+        design="8 C08"),
+})
+
 NOT_APPLICABLE = {
     "C02": "the rows a Django QuerySet returns are decided by Django's SQL compiler and SQLite, not by any function in /repo; no contract on repo code can express it (DESIGN section 9)",
     "C03": "row semantics are decided by SQLAlchemy's compiler (operator rendering, contains escaping, boolean rendering) and SQLite (DESIGN section 9)",
